@@ -281,6 +281,8 @@ def build_cases(tier):
         [(T, ["F"]), (O, ["F"]), (T, ["F"])],
         [(T, ["N"]), (T, ["F", "F"])],
         [(T, ["G", "F"]), (T, ["F", "F"])],
+        [(T, ["N", "F"])],
+        [(T, ["F"]), (T, ["N", "F", "F"])],
     ]
     for h in hist:
         for tr in ("none", "scale", "flip"):
